@@ -153,54 +153,6 @@ fn tlv_walk_matches_spec_12() {
     assert!(done || off >= n);
 }
 
-/// Builder histories on the real crate (C09, C10, C07): `Builder::new(vc, afp)` followed by two symbolic
-/// steps out of { write_payload(u8), write_payload(u16), write_tlv(kind, 0..=2 bytes), set_length(Some(l)),
-/// set_length(None), reserve_capacity(c) } and `build`, against the specification: signature, the two control
-/// bytes as given, the length field (last explicit length in force, else the payload size), then the
-/// encodings in call order.  Bounded by the number of steps and the payload sizes; all values symbolic.
-#[kani::proof]
-#[kani::unwind(20)]
-fn builder_histories_2() {
-    use ppp::v2::Builder;
-    let vc: u8 = kani::any();
-    let afp: u8 = kani::any();
-    let mut b = Builder::new(vc, afp);
-    let mut want = [0u8; 12];          // payload bytes the specification expects (at most 2 * 5)
-    let mut wn = 0usize;
-    let mut explicit: Option<u16> = None;
-    let mut step = 0;
-    while step < 2 {
-        let k: u8 = kani::any();
-        kani::assume(k < 6);
-        match k {
-            0 => { let x: u8 = kani::any(); b = b.write_payload(x).unwrap(); want[wn] = x; wn += 1; }
-            1 => { let x: u16 = kani::any(); b = b.write_payload(x).unwrap(); want[wn] = (x >> 8) as u8; want[wn + 1] = x as u8; wn += 2; }
-            2 => {
-                let kind: u8 = kani::any();
-                let v: [u8; 2] = kani::any();
-                let m: usize = kani::any();
-                kani::assume(m <= 2);
-                b = b.write_tlv(kind, &v[..m]).unwrap();
-                want[wn] = kind; want[wn + 1] = 0; want[wn + 2] = m as u8; wn += 3;
-                if m > 0 { want[wn] = v[0]; wn += 1; }
-                if m > 1 { want[wn] = v[1]; wn += 1; }
-            }
-            3 => { let l: u16 = kani::any(); b = b.set_length(l); explicit = Some(l); }
-            4 => { b = b.set_length(None); explicit = None; }
-            _ => { let c: usize = kani::any(); kani::assume(c <= 8); b = b.reserve_capacity(c); }
-        }
-        step += 1;
-    }
-    let out = b.build().unwrap();
-    assert!(out.len() == 16 + wn);
-    let i: usize = kani::any();
-    kani::assume(i < 16 + wn);
-    let len = match explicit { Some(l) => l, None => wn as u16 };
-    let expect = if i < 12 { SIG[i] } else if i == 12 { vc } else if i == 13 { afp }
-        else if i == 14 { (len >> 8) as u8 } else if i == 15 { len as u8 } else { want[i - 16] };
-    assert!(out[i] == expect);
-}
-
 /// v1 port grammar on the real crate (C01, C12): `PROXY TCP4 1.2.3.4 5.6.7.8 <p> <q>\r\n` with p of 1..=2 and q of
 /// 1..=5 symbolic 7-bit bytes other than SP / CR, through the byte entry point: accepted exactly when both are
 /// plain decimal without sign or leading zero and at most 65535, with those values; otherwise the error names
